@@ -577,7 +577,12 @@ def run(ctx):
                 ctx.dist['winner 1/10/11 of >=11 branches'] += 1
             if len([1 for it in d['chain'] if it[0] == 'block']) > len(nbr):
                 ctx.dist['block used twice'] += 1
-            assert o['maxabs'] < 2 ** 50, 'integer exactness lost'
+            if not o['maxabs'] < 2 ** 50:
+                # the integer-weight networks of the stream stay far below 2^50 on the unchanged tree (exact float64 arithmetic);
+                # an output beyond that is itself an observation (a branch output accumulated in place, ...), not a harness error
+                fails.append(('output-magnitude-out-of-the-exact-range', {'what': 'an integer-weight network of the stream produced |value| = %r >= 2^50 (%s)' % (o['maxabs'], tag),
+                                                                         'state': st, 'winners': list(win), 'desc': strip(d), 'tag': tag}))
+                continue
             nf = len(fails)
             check_obs(d, st, o, fails, tag)
             for _, inf in fails[nf:]:
